@@ -28,7 +28,7 @@ Proof. exact ending_label_trig. Qed.
 Print Assumptions C10_ending_events_trigger.
 
 Theorem C10_failed_write_triggers : forall c s d s',
-  wfailed (getd s d) = false -> step c s (IWrite d true) = Some s' -> trig s' = true.
+  (step c s (IWSend d true) = Some s' \/ step c s (IDWrite d true) = Some s') -> trig s' = true.
 Proof. exact failed_write_trig. Qed.
 Print Assumptions C10_failed_write_triggers.
 
